@@ -169,5 +169,6 @@ def main(chk):
     for i in (0, len(progs) // 2, len(progs) - 1):
         chk.sample({"program": progs[i], "expected_out": cases[i][3], "expected_value": cases[i][4],
                     "impl": {k: res[i]["impl"].get(k) for k in ("kind", "repr", "out")}, "model_verdict": res[i]["verdict"]})
+    chk.cov["rule"] += " Added after seeded round 6: negative zero, an inherited nil whose prototype defines B."
     return pancore.conclude(chk, ok, broken, "Props/C12.v", res, viol, model_only, "C12",
                             "Core.Interp vs evaluator/{eval_if,eval_infix,eval_jumpifstmt}.go and the B built-ins")
